@@ -153,6 +153,10 @@ def _xh_sqlite_get_records(cursor, sessionid=None, limit=None, newest_first=Fals
 
 
 def _xh_sqlite_delete_records(cursor, size_to_keep):
+    if size_to_keep == 0:
+        # keep nothing: "LIMIT 0" below would yield min(tsb) = NULL and the
+        # DELETE ... WHERE tsb < NULL would remove no rows at all
+        return cursor.execute(f"DELETE FROM {XH_SQLITE_TABLE_NAME}").rowcount
     sql = "SELECT min(tsb) FROM ("
     sql += f"SELECT tsb FROM {XH_SQLITE_TABLE_NAME} ORDER BY tsb DESC "
     sql += "LIMIT %d)" % size_to_keep
